@@ -450,9 +450,11 @@ func (e Engine) judge(s scenario, rr runResult, pid int, tmpls []tmplInfo, acc, 
 	if len(foreign) == 2 {
 		fKind, fArg = strings.TrimPrefix(foreign[0], "foreign:"), foreign[1]
 	}
-	if rr.crashed != nil {
+	if rr.crashed != nil && e.CLIOnly {
 		return &verdict{"cli_panic@" + simrt.PanicSite(rr.stack, false), fmt.Sprintf("main panicked (a Go stack trace instead of a message and an exit status): %v", rr.crashed)}
 	}
+	// (Under C16 a panic of main is a failed run like any other - exit status 2, nothing announced -
+	// and is judged by the clauses below; that it is a stack trace instead of a message is C14's matter.)
 	if e.CLIOnly {
 		if rr.code != 0 && rr.errMsgs == 0 && strings.TrimSpace(rr.stderr) == "" && !s.Help && !s.Version {
 			return &verdict{"cli_silent_failure", fmt.Sprintf("exit status %d without any error message", rr.code)}
@@ -533,7 +535,7 @@ func (e Engine) judge(s scenario, rr runResult, pid int, tmpls []tmplInfo, acc, 
 			}
 		}
 	}
-	if rr.code != 0 && rr.errMsgs == 0 && strings.TrimSpace(rr.stderr) == "" {
+	if rr.code != 0 && rr.errMsgs == 0 && strings.TrimSpace(rr.stderr) == "" && rr.crashed == nil {
 		return &verdict{"silent_failure", fmt.Sprintf("exit status %d without any error message", rr.code)}
 	}
 	// 2. success => complete (not judged when a foreign actor removed the output location under the
